@@ -70,7 +70,7 @@ class IdealReservoir:
             alpha_scaled = self.alpha_scaled(b)
             kt_h2 = mesh_ratio * alpha_scaled
             a_matrix = _build_matrix(kt_h2)
-            pseudopressure[i + 1], _ = sparse.linalg.bicgstab(a_matrix, b, atol=_ATOL)
+            pseudopressure[i + 1] = sparse.linalg.spsolve(a_matrix, b)
         self.pseudopressure = pseudopressure
 
     def recovery_factor(self, time: ndarray | None = None, density=False) -> ndarray:
@@ -212,7 +212,7 @@ class SinglePhaseReservoir(IdealReservoir):
             # Enforce the boundary condition at x=0 (same diffusivity as the matrix row)
             b[0] = m_f[i] + kt_h2[0] * m_f[i]
             a_matrix = _build_matrix(kt_h2)
-            pseudopressure[i + 1], _ = sparse.linalg.bicgstab(a_matrix, b, atol=_ATOL)
+            pseudopressure[i + 1] = sparse.linalg.spsolve(a_matrix, b)
         self.pseudopressure = pseudopressure
 
 
